@@ -314,7 +314,19 @@ func c19New(init []byte, capacity int, isNil, str bool) (bufAPI, bufAPI) {
 
 // c19Lockstep runs ops on both; when next != nil the ops are generated on the
 // fly from the oracle's state (adaptive sizes) and returned.
+// c19FlagTurn: the buffer API is no logging call - the process-wide termination flags (LnoInterrupt, Linterruptalways) do
+// not enter; every lock-step run takes the next of their four combinations
+var c19FlagTurn int
+
 func c19Lockstep(init []byte, capacity int, isNil, str bool, ops []bOp, n int, next func(b bufAPI) bOp) (c19Trace, []bOp) {
+	c19FlagTurn++
+	slog.RemoveFlags(slog.LnoInterrupt, slog.Linterruptalways)
+	if c19FlagTurn&1 != 0 {
+		slog.AddFlags(slog.LnoInterrupt)
+	}
+	if c19FlagTurn&2 != 0 {
+		slog.AddFlags(slog.Linterruptalways)
+	}
 	p, b := c19New(init, capacity, isNil, str)
 	tr := c19Trace{FailAt: -1, Cap0: p.Cap()}
 	if s0, s1 := c19State(p), c19State(b); s0.Len != s1.Len || !bytes.Equal(s0.Str, s1.Str) || s0.Panic != s1.Panic {
